@@ -21,8 +21,11 @@ def sortBy (key : α → Int) : List α → List α
   | [] => []
   | x :: xs => insertBy key x (sortBy key xs)
 
+/-- `sorted(l, key=key, reverse=True)`: descending, equal keys in input order -/
+def sortByDesc (key : α → Int) (l : List α) : List α := sortBy (fun a => - key a) l
+
 end Aw.PySort
 
 namespace Aw
-export PySort (insertBy sortBy)
+export PySort (insertBy sortBy sortByDesc)
 end Aw
